@@ -513,6 +513,12 @@ func suiteWsInject(e *vh.Env) {
 			}
 		}
 		text, _ := json.Marshal(v)
+		if rng.Chance(12) {
+			// something after the top-level value: not a JSON message any more, so it must pass unchanged
+			text = append(text, []byte([]string{"}", "]", " }", "\n]", "x", " {}", ",", "}}"}[rng.Intn(8)])...)
+			target = false
+			v = nil
+		}
 		hdr := map[string]string{"X-Websocket-Shim-Version": "1"}
 		for _, k := range []string{"X-A", "X-B", "Content-Type"} {
 			if rng.Chance(60) {
@@ -527,6 +533,14 @@ func suiteWsInject(e *vh.Env) {
 			continue
 		}
 		got := be.received()[before]
+		if v == nil && len(text) > 0 && !json.Valid(text) {
+			if !bytes.Equal(got.data, text) {
+				e.Fail("C11:inject-changed-non-target", fmt.Sprintf("message %q is not a JSON value (data after the top-level value) but was changed to %q", text, got.data), i, nil, nil, nil)
+			}
+			e.Eval(string(text), false)
+			e.Count("not-json")
+			continue
+		}
 		gv, err := decodeExact(got.data)
 		if err != nil {
 			e.Fail("C11:inject-output-not-json", string(got.data), i, nil, nil, nil)
